@@ -31,6 +31,8 @@ Definition lput (k : string) (v : list N) (excl : bool) (s : lfs) : lres * lfs :
 
 (* Delete: removing a missing key is not an error *)
 Definition ldelete (k : string) (s : lfs) : lfs := lremove k s.
+(* Clear: every key is gone; the store stays usable *)
+Definition lclear (s : lfs) : lfs := [].
 Definition lhas (k : string) (s : lfs) : bool := match lget k s with Some _ => true | None => false end.
 
 Definition list_all (prefix delim : string) (s : lfs) : list string := list_keys prefix delim (map fst s).
@@ -48,6 +50,7 @@ Inductive lop :=
 | OpGet (k : string)
 | OpHas (k : string)
 | OpDelete (k : string)
+| OpClear
 | OpList (prefix delim : string) (count : nat).   (* a complete paged listing *)
 
 Inductive lobs :=
@@ -62,6 +65,7 @@ Definition lstep (s : lfs) (o : lop) : lfs * lobs :=
   | OpGet k => (s, ObsData (lget k s))
   | OpHas k => (s, ObsBool (lhas k s))
   | OpDelete k => (ldelete k s, ObsRes LOk)
+  | OpClear => (lclear s, ObsRes LOk)
   | OpList p d c => (s, ObsKeys (all_pages exact_seek (S (List.length (list_all p d s))) None c (list_all p d s)))
   end.
 
